@@ -376,11 +376,32 @@ fn geometry_check(_case: &Value, stats: &mut Stats) -> CheckResult {
                 ensure!(panics(|| c.add(d)), "Coord({}).add({}) did not panic although the result {} is off the board", i, d, t);
             }
         }
-        for df in -9isize..=9 {
-            for dr in -9isize..=9 {
-                let (nf, nr) = (f + df, r + dr);
+        // small deltas exhaustively, plus deltas around every power of two and the extremes of isize
+        let mut deltas: Vec<isize> = (-9isize..=9).collect();
+        for k in 4..63u32 {
+            for off in [-1isize, 0, 1] {
+                deltas.push((1isize << k).wrapping_add(off));
+                deltas.push((1isize << k).wrapping_neg().wrapping_add(off));
+            }
+        }
+        deltas.extend_from_slice(&[isize::MIN, isize::MIN + 1, isize::MAX, isize::MAX - 1, 248, 249, -248, -249, 250, -250]);
+        for &df in &deltas {
+            for &dr in &deltas {
+                let (nf, nr) = (f as i128 + df as i128, r as i128 + dr as i128);
                 let want = if (0..8).contains(&nf) && (0..8).contains(&nr) { Some((nr * 8 + nf) as usize) } else { None };
-                ensure!(c.shift(df, dr).map(|x| x.index()) == want, "Coord({}).shift({}, {})", c, df, dr);
+                let got = catch_unwind(AssertUnwindSafe(|| c.shift(df, dr)));
+                match got {
+                    Ok(g) => ensure!(g.map(|x| x.index()) == want, "Coord({}).shift({}, {}) = {:?}, geometry gives {:?}", c, df, dr, g, want),
+                    Err(_) => fail!("Coord({}).shift({}, {}) panicked", c, df, dr),
+                }
+            }
+        }
+        for &d in &deltas {
+            let t = i as i128 + d as i128;
+            if (0..64).contains(&t) {
+                ensure!(!panics(|| c.add(d)), "Coord({}).add({}) panicked although the result is on the board", i, d);
+            } else {
+                ensure!(panics(|| c.add(d)), "Coord({}).add({}) did not panic although the result is off the board", i, d);
             }
         }
         // named constants
